@@ -25,6 +25,13 @@ def model_cfg(tier, tg):
 def configs(tier, family):
     rng = random.Random(vlib.seed())
     out = []
+    if family == "C17":
+        for rep in range(6 if tier == "quick" else 40):
+            out.append({"transport": "mixed", "buffer": rng.choice([0, 1, 8]), "senders": 1,
+                        "count": rng.choice([3, 8]) if tier == "quick" else rng.choice([8, 30]),
+                        "payload": "small", "delay": 0, "initiator": "cfinish", "busy": False,
+                        "seed": vlib.seed() * 100 + rep, "sessions": rng.choice([3, 5, 6]) if tier == "quick" else rng.choice([6, 9, 12])})
+        return out
     reps = 1 if tier == "quick" else 6
     for rep in range(reps):
         for tr in TRANSPORTS:
@@ -53,7 +60,15 @@ class Fam:
         res = {"engine": "channel", "toggles": {k: tg[k] for k in TOGGLES}}
         if only_cases is None:
             res["model"] = {"states": 0, "transitions": 0, "invariants_checked": all(tg[k] for k in TOGGLES)}
-            if res["model"]["invariants_checked"]:
+            if self.family == "C17":
+                cfgtxt = ("SPECIFICATION Spec\nCONSTANTS\n  Clients <- MCClients\n  Nodes <- MCNodes\n  PerClient = %d\n"
+                          "INVARIANTS P_C17\nCHECK_DEADLOCK FALSE\n" % (1 if tier == "quick" else 2))
+                out, st = vlib.run_tlc("IsoMC", cfgtxt, scratch, workers=8, timeout=2400, heap="8g")
+                if not st.get("ok"):
+                    raise vlib.Inconclusive("TLC did not complete on Iso:\n" + out[-3000:])
+                res["model"].update({"states": st.get("distinct", 0), "transitions": st.get("generated", 0),
+                                     "depth": st.get("depth"), "wall_s": st["wall_s"], "invariants_checked": True})
+            elif res["model"]["invariants_checked"]:
                 out, st = vlib.run_tlc("ChannelMC", model_cfg(tier, tg), scratch, workers=8, timeout=2400, heap="8g")
                 if not st.get("ok"):
                     raise vlib.Inconclusive("TLC did not complete on Channel:\n" + out[-3000:])
@@ -101,3 +116,4 @@ class Fam:
 
 C04 = Fam("C04")
 C13 = Fam("C13")
+C17 = Fam("C17")
